@@ -73,6 +73,11 @@ func validCorpus(level int) []CorpusReq {
 			out = append(out, CorpusReq{Name: name + "/anchoring>fatigue>omission", Req: withBiases(root, []M{core[7], core[3], core[0]}), Valid: true})
 			out = append(out, CorpusReq{Name: name + "/concealment>mixing>reversal", Req: withBiases(root, []M{core[4], core[6], core[1]}), Valid: true})
 		}
+		// near-tie variant: two criterion values of one alternative differ by 4e-6 (inside Choquet's 1e-5 grouping, outside
+		// the 1e-8 rounding), so an order-of-iteration dependence in the grouping shows in the reported value
+		near := set(rootRequest(m, true, false), M{"c1": 2.5, "c2": 1.0, "c3": 2.500004}, "knownAlternatives", 0, "criteria")
+		out = append(out, CorpusReq{Name: m + "/near-tie/no-bias", Req: near, Valid: true})
+		out = append(out, CorpusReq{Name: m + "/near-tie/fatigue", Req: withBiases(near, []M{biasAlphabet(0)[2]}), Valid: true})
 		// tie variant: all three criteria equally important under every documented importance (equal weights,
 		// equal column sums), so that any order-of-iteration dependence in rankings becomes visible
 		tie := tieRequest(m)
